@@ -40,13 +40,14 @@ def litOK (s : String) : Bool :=
 
 /-- what a generated token may be, by provenance: a literally written token is punctuation / keyword / primitive type /
 literal / reserved name and has no anchor; a segment of an absolute path is fused with the `::` in front of it; a member
-name is fused with `.`, `::`, `fn` or `type` in front of it or with the `=` of a binding behind it -/
+name is fused with `::`, `fn` or `type` in front of it or with the `=` of a binding behind it.  A name behind `.` is *not*
+admitted: `x.name(..)` is looked up among the traits in scope of the user (F31) -/
 def tokOK (t : GTok) : Bool :=
   match t.p with
   | .lit => litOK t.s && t.pre == "" && t.post == ""
   | .root => t.s == "core" && t.pre == "::" && t.post == ""     -- absolute paths start at `::core`
   | .abs => t.pre == "::" && t.post == ""
-  | .mem => ((t.pre == "." || t.pre == "::" || t.pre == "fn" || t.pre == "type") && t.post == "") || (t.pre == "" && t.post == "=")
+  | .mem => ((t.pre == "::" || t.pre == "fn" || t.pre == "type") && t.post == "") || (t.pre == "" && t.post == "=")
   | _ => t.pre == "" && t.post == ""
 
 /-- every token of the list is allowed -/
@@ -56,7 +57,6 @@ theorem Hyg.nil : Hyg [] := by intro t h; cases h
 @[simp] theorem tokOK_u (s : String) : tokOK (u s) = true := rfl
 @[simp] theorem tokOK_fnM (s : String) : tokOK (fnM s) = true := rfl
 @[simp] theorem tokOK_typeM (s : String) : tokOK (typeM s) = true := rfl
-@[simp] theorem tokOK_dotM (s : String) : tokOK (dotM s) = true := rfl
 @[simp] theorem tokOK_pathM (s : String) : tokOK (pathM s) = true := rfl
 @[simp] theorem tokOK_bindM (s : String) : tokOK (bindM s) = true := rfl
 @[simp] theorem tokOK_idxLit (i : Nat) : tokOK (idxLit i) = true := rfl
@@ -171,7 +171,7 @@ theorem hyg_withRef {ts : GToks} {r : Bool} : Hyg (withRef ts r) ↔ Hyg ts := b
 macro "hyg_simp" "[" ts:Lean.Parser.Tactic.simpLemma,* "]" : tactic =>
   `(tactic| simp (config := { decide := true }) only [implItem, autoDerived, thisTyToks, ufcs, memberOf, hyg_withRef, ↓reduceIte, Bool.false_eq_true, hyg_gapp, hyg_gcons, hyg_cons,
       hyg_append, hyg_paren, hyg_brace, hyg_angle, hyg_U', hyg_absPath', hyg_genAttr', hyg_nil', tokOK_u, tokOK_fnM, tokOK_typeM,
-      tokOK_dotM, tokOK_pathM, tokOK_bindM, tokOK_idxLit, and_true, true_and,
+      tokOK_pathM, tokOK_bindM, tokOK_idxLit, and_true, true_and,
       and_self, false_imp_iff, imp_self, forall_const, hyg_kindPath, $ts,*])
 
 theorem hyg_where_simple (w : WCB) (tr : GToks) (h : Hyg tr) : Hyg (w.build fun ty => U ty.toks +++ ":" ::: tr) :=
@@ -299,10 +299,20 @@ theorem hyg_debugExpr (x : DebugExpr) (toExpr : FieldE → GToks) (h : ∀ f, Hy
       rw [String.toList_append, String.toList_append]
       rfl
     unfold DebugExpr.render
+    have hfold : ∀ (fs : List FieldE) (acc : GToks), Hyg acc →
+        Hyg (fs.foldl (fun acc f =>
+          absPath ["core", "fmt", if named then "DebugStruct" else "DebugTuple", "field"] +++ paren
+            (acc +++ (if named then "," ::: nameLit f.member ::: "," ::: toExpr f else "," ::: toExpr f))) acc) := by
+      intro fs
+      induction fs with
+      | nil => intro acc ha; exact ha
+      | cons f fs ih =>
+        intro acc ha
+        apply ih
+        cases named <;> hyg_simp [h, hn, ha]
+    hyg_simp []
+    apply hfold
     hyg_simp [hn]
-    apply hyg_flatMap
-    intro f _
-    split <;> hyg_simp [h, hn]
 
 theorem hyg_debug (d : DebugImpl) : Hyg d.render := by
   unfold DebugImpl.render
